@@ -5,11 +5,20 @@ use crate::RecvErrorTimeout;
 use std::collections::VecDeque;
 use std::future::Future;
 use std::pin::Pin;
+#[cfg(not(all(excsn_fibre_verif, excsn_fibre_verif_shuttle)))]
 use parking_lot::Mutex;
+#[cfg(all(excsn_fibre_verif, excsn_fibre_verif_shuttle))]
+use crate::internal::sync::Mutex;
 use std::sync::Arc;
 use std::task::{Context, Poll, Waker};
+#[cfg(not(all(excsn_fibre_verif, excsn_fibre_verif_shuttle)))]
 use std::thread::{self, Thread};
+#[cfg(all(excsn_fibre_verif, excsn_fibre_verif_shuttle))]
+use crate::internal::sync::{thread, Thread};
+#[cfg(not(all(excsn_fibre_verif, excsn_fibre_verif_shuttle)))]
 use std::time::{Duration, Instant};
+#[cfg(all(excsn_fibre_verif, excsn_fibre_verif_shuttle))]
+use {crate::internal::sync::Instant, std::time::Duration};
 
 // --- Waiter & Internal State ---
 
